@@ -21,7 +21,7 @@ to a **group** (`classTable`, `globalTable`); the groups are the cells of the da
 *Operations* mirror the public calls, split by what they do to the buffers (decided by the harness
 from the sample counts): see `Op`.  *Phases* mirror `acmod->state` (`Phase.code`).  The model is of the
 **repaired** code: a call that completes no analysis window leaves the phase `started` (D8), and
-`feat_s.cmn` is persistent (D52), and live CMN tests its update threshold per frame, so the ring capacity does not reach the data (D53); the PTM top-N history is reset at frame 0 (D54).
+`feat_s.cmn` is persistent (D52), and live CMN tests its update threshold per frame, so the ring capacity does not reach the data (D53); the PTM top-N history is reset at frame 0 (D54); a streaming call drains the cepstral ring however large an earlier batch utterance made it (D62).
 -/
 namespace SSVerif.Api
 open SSVerif.Generated SSVerif.Isolation
@@ -192,7 +192,8 @@ def classTable_acmod_s : List (Field × Group) := [
   (.acmod_s__feat_outidx, .cnt)]
 def classTable_mgau_s : List (Field × Group) := [
   (.mgau_s__vt, .cfg),
-  (.mgau_s__frame_idx, .cnt)]
+  (.mgau_s__frame_idx, .cnt),
+  (.mgau_s__hw_frame, .cnt)]
 def classTable_ptm_mgau_s : List (Field × Group) := [
   (.ptm_mgau_s__base, .agg),
   (.ptm_mgau_s__config, .cfg),
@@ -205,6 +206,7 @@ def classTable_ptm_mgau_s : List (Field × Group) := [
   (.ptm_mgau_s__max_topn, .cfg),
   (.ptm_mgau_s__ds_ratio, .cfg),
   (.ptm_mgau_s__hist, .cfg),
+  (.ptm_mgau_s__replay, .cfg),
   (.ptm_mgau_s__f, .sen),
   (.ptm_mgau_s__n_fast_hist, .cfg),
   (.ptm_mgau_s__lmath_8b, .cfg),
@@ -332,6 +334,7 @@ def canonTable : List (Field × String) := [
   (.acmod_s__senscr_frame, "-1"),
   (.acmod_s__n_senone_active, "0"),
   (.mgau_s__frame_idx, "0"),
+  (.mgau_s__hw_frame, "0"),
   (.fe_s__num_overflow_samps, "0"),
   (.fe_s__overflow_samps, "all-zero"),
   (.fe_s__pre_emphasis_prior, "0"),
